@@ -86,6 +86,7 @@ type aStep struct {
 	Conf    *aConf              `json:"conf"`
 	Full    bool                `json:"full"`
 	Names   []string            `json:"names"`
+	Descs   []vwDesc            `json:"descs"`
 	Mid     []aStep             `json:"mid"`   // executed after Split bytes of the body have been read by the handler
 	Split   int                 `json:"split"`
 }
@@ -136,6 +137,8 @@ type aRes struct {
 	Names   []string            `json:"names,omitempty"`
 	Par     [][]aRes            `json:"par,omitempty"`
 	View    *aView              `json:"view,omitempty"`
+	Pages   [][]string          `json:"pages,omitempty"`
+	PageLens []int              `json:"pagelens,omitempty"`
 	MS      float64             `json:"ms"`
 	Flag    bool                `json:"flag"`
 }
@@ -617,6 +620,36 @@ func (e *aEnv) step(st aStep, idx int) (res aRes) {
 				b = "1"
 			}
 			res.Names = append(res.Names, a+b)
+		}
+	case "refsplit":
+		// referrerSplit on a response built from the given descriptors; also the lengths encoding/json gives
+		// the empty response and each descriptor (inputs of the model's split)
+		idx := types.Index{SchemaVersion: 2, MediaType: types.MediaTypeOCI1ManifestList, Manifests: []types.Descriptor{}}
+		b0, _ := json.Marshal(idx)
+		res.N = len(b0)
+		for _, d := range st.Descs {
+			dd := types.Descriptor{MediaType: d.MT, Digest: digest.Digest(d.Dig), Size: d.Size, ArtifactType: d.AT}
+			if d.Ann != nil {
+				dd.Annotations = *d.Ann
+			}
+			idx.Manifests = append(idx.Manifests, dd)
+			bd, _ := json.Marshal(dd)
+			res.Names = append(res.Names, fmt.Sprintf("%d", len(bd)))
+		}
+		in, _ := json.Marshal(idx)
+		pages, err := referrerSplit(in, int64(st.Secs))
+		if err != nil {
+			res.Err = err.Error()
+		}
+		for _, p := range pages {
+			pi := types.Index{}
+			_ = json.Unmarshal(p, &pi)
+			ds := []string{}
+			for _, m := range pi.Manifests {
+				ds = append(ds, string(m.Digest))
+			}
+			res.Pages = append(res.Pages, ds)
+			res.PageLens = append(res.PageLens, len(p))
 		}
 	case "matchv2":
 		// matchV2 on explicit path elements (Files[i].Path = element) with the patterns in Names
